@@ -9,7 +9,8 @@ PROP = dict(
          'profile tree (parents, diamonds, symlinked make.profile, "*atom" and "-*atom" lines, repeated atoms), '
          'extra -atoms (blockers, bare names) and -nobdeps; traps (inactive conditionals around missing packages, unsatisfied groups, '
          'build-only dependencies under -nobdeps); a per-case chaos level (55% calm, 30% some trouble, 15% wild); scenarios '
-         '(many slots of few names, a dependency cycle through every package); directories are created in a random order and the '
+         '(many slots of few names, a dependency cycle through every package, one atom text with a parent-relative USE '
+         'dependency [f=] [!f=] [f?] [!f?] in several selected packages whose own setting of f differs); directories are created in a random order and the '
          'tree is built a second time in the reverse order on tmpfs. '
          'Non-trivial: the selection has at least 2 members beyond the requested atoms or the run fails; '
          'distinct by the whole input (dependency graph, USE assignment, request)',
